@@ -30,7 +30,8 @@ const (
 	cstLoop     = "Loop"
 	cstWhile    = "While"
 
-	cstBreakable = "Breakable"
+	cstBreakable   = "Breakable"
+	cstContinuable = "Continuable"
 )
 
 const (
